@@ -626,7 +626,61 @@ def _same(a, b):
         return False
 
 
-UNITS = [("update.keeps_position", unit_update_keeps_position), ("bounded.lengths", unit_bounded_lengths), ("bounded.odd_featuretypes", unit_bounded_odd_featuretypes), ("bounded.after_imports", unit_bounded_after_imports), ("schema", unit_schema), ("order", unit_order), ("where", unit_where), ("counts", unit_counts), ("bounded", unit_bounded)]
+def unit_bounded_long_collections(U):
+    """Bounded: featuretype given as a LONG collection (hundreds to thousands of names, the stored types scattered through it,
+    some names repeated far apart): all_features / features_of_type return each matching feature once, in the requested
+    order, like a filter + sort of the full scan"""
+    import random
+    import gffutils.feature as F
+    rng = random.Random(11)
+    fails, cases = [], 0
+    feats = []
+    for i in range(40):
+        s_ = rng.randrange(1, 200000)
+        f = F.Feature(seqid="c%d" % (i % 3), source="s", featuretype="t%d" % (i % 8), start=s_, end=s_ + rng.randrange(0, 500), strand="+-"[i % 2], attributes={"ID": ["f%d" % i]})
+        f.id = "f%d" % i
+        feats.append(f)
+    db = native_db(feats)
+    scan = list(db.all_features())
+    for n in ((50, 901, 1850, 2400) if not U.thorough else (50, 500, 899, 900, 901, 1000, 1801, 2400, 5000)):
+        for variant in ("scattered", "repeated"):
+            names = ["absent%d" % i for i in range(n)]
+            present = ["t%d" % i for i in range(8) if i != 3]
+            for j, t in enumerate(present):
+                names[(j * 977 + 13) % n] = t
+            if variant == "repeated":
+                names[n - 1] = present[0]
+                names[n // 2] = present[1]
+            for coll in (list, tuple):
+                for ob, rev in ((None, False), ("start", False), ("start", True), (("seqid", "start"), False), ("length", False)):
+                    for entry in ("all_features", "features_of_type"):
+                        cases += 1
+                        kw = {} if ob is None else {"order_by": ob, "reverse": rev}
+                        try:
+                            if entry == "all_features":
+                                got = [f.id for f in db.all_features(featuretype=coll(names), **kw)]
+                            else:
+                                got = [f.id for f in db.features_of_type(coll(names), **kw)]
+                        except Exception as e:
+                            fails.append({"case": {"entry": entry, "names": n, "variant": variant, "order_by": ob}, "expected": "rows", "observed": "raised %r" % (e,)})
+                            continue
+                        sel = [f for f in scan if f.featuretype in set(names)]
+                        if ob is None:
+                            exp = [f.id for f in sel]
+                            ok = got == exp
+                        else:
+                            keys = [ob] if isinstance(ob, str) else list(ob)
+                            kf = lambda f: tuple((f.end - f.start + 1) if k == "length" else getattr(f, k) for k in keys)
+                            exp = [f.id for f in sorted(sel, key=kf, reverse=rev)]
+                            gotf = [db[i] for i in got]
+                            ok = sorted(got) == sorted(exp) and [kf(f) for f in gotf] == [kf(f) for f in sorted(sel, key=kf, reverse=rev)]
+                        if not ok and len(fails) < 6:
+                            fails.append({"case": {"entry": entry, "featuretype": "%s of %d names (%s)" % (coll.__name__, n, variant), "order_by": ob, "reverse": rev}, "expected": exp[:12], "observed": got[:12]})
+    U.bounded_result("C11.bounded.long_collections", "a long featuretype collection selects each matching feature once, in the requested order (== filter + sort of the full scan)",
+                     "40 stored features of 8 types; collections of 50 .. 2400 (thorough 5000) names as list / tuple, stored types scattered or repeated; 5 orderings; both entry points", cases, fails)
+
+
+UNITS = [("bounded.long_collections", unit_bounded_long_collections), ("update.keeps_position", unit_update_keeps_position), ("bounded.lengths", unit_bounded_lengths), ("bounded.odd_featuretypes", unit_bounded_odd_featuretypes), ("bounded.after_imports", unit_bounded_after_imports), ("schema", unit_schema), ("order", unit_order), ("where", unit_where), ("counts", unit_counts), ("bounded", unit_bounded)]
 
 
 def replay_file(doc):
